@@ -28,15 +28,16 @@ type InjSvc struct{ Svc knxnet.Service }
 func (i InjSvc) String() string { return "INJ " + fakesock.Describe(i.Svc) }
 
 type c09Params struct {
-	H, R, T    int
-	tcp        bool
-	allStatus  bool // flat: every non-zero status code, one per run (Choose 255, free)
-	spont      bool // spontaneous disconnect requests / responses
-	horizonHB  int  // number of heartbeat intervals to run
-	noTraffic  bool
-	connMenu   bool
-	stateMenu  bool
-	lateCloser bool
+	H, R, T        int
+	tcp            bool
+	allStatus      bool // flat: every non-zero status code, one per run (Choose 255, free)
+	spont          bool // spontaneous disconnect requests / responses
+	horizonHB      int  // number of heartbeat intervals to run
+	noTraffic      bool
+	connMenu       bool
+	stateMenu      bool
+	lateCloser     bool
+	discWriteFails int // socket writes of the client's disconnect responses that may fail (transient error)
 }
 
 func c09Run(p c09Params) func() {
@@ -50,6 +51,14 @@ func c09Run(p c09Params) func() {
 		deliver := func(v knxnet.Service) {
 			mc.Log(InjSvc{v})
 			sock.Deliver(v)
+		}
+		discFailLeft := p.discWriteFails
+		sock.FailSend = func(v knxnet.ServicePackable) error {
+			if _, ok := v.(*knxnet.DiscRes); ok && discFailLeft > 0 && mc.Choose(2, mc.Fault) == 1 {
+				discFailLeft--
+				return fakesock.ErrSockClosed
+			}
+			return nil
 		}
 		gw := NewGateway(sock, 7)
 		cur := uint8(0)
@@ -576,8 +585,11 @@ func c09Oracle(p c09Params) func(tr *mc.Trace) []h.Violation {
 		firstTxSeen := false
 		for _, e := range tr.Log {
 			s, ok := e.V.(fakesock.Sent)
-			if !ok || s.Err != nil {
+			if !ok {
 				continue
+			}
+			if _, isDiscRes := s.Svc.(*knxnet.DiscRes); s.Err != nil && !isDiscRes {
+				continue // (a disconnect response whose write failed still counts as the client's answer)
 			}
 			kind, ch := "", uint8(0)
 			switch x := s.Svc.(type) {
@@ -773,6 +785,9 @@ func init() {
 	register("both", &h.Scenario{Name: "C09-H1000-spont-F1-P1", Prop: "C09", P: 1, F: 1, D: 1, Run: c09Run(c), Check: c09Oracle(c)})
 	d := c09Params{H: 200, R: 100, T: 300, horizonHB: 6, stateMenu: true, connMenu: true}
 	register("both", &h.Scenario{Name: "C09-H200-overlap-F2", Prop: "C09", P: 1, F: 2, D: 1, Run: c09Run(d), Check: c09Oracle(d)})
+	// the write of the client's disconnect response fails: the connection is over all the same
+	dw := c09Params{H: 1000, R: 100, T: 300, horizonHB: 2, spont: true, connMenu: true, discWriteFails: 1}
+	register("both", &h.Scenario{Name: "C09-H1000-spont-disconnect-response-write-fails-F2", Prop: "C09", P: 0, F: 2, D: -1, Run: c09Run(dw), Check: c09Oracle(dw)})
 	e := c09Params{H: 1000, R: 100, T: 300, horizonHB: 2, allStatus: true, noTraffic: true}
 	register("both", &h.Scenario{Name: "C09-all-255-status-codes", Prop: "C09", P: 0, F: 0, D: -1, Run: c09Run(e), Check: c09Oracle(e)})
 	f := c09Params{H: 1000, R: 100, T: 300, horizonHB: 5, stateMenu: true, connMenu: true, spont: true}
